@@ -586,6 +586,11 @@ def directed():
                   call("len", ["comp", "list", call("clamp", call("abs", N("x"))), None, [[["x"], False, N("xs"), []]]])],
           [[">", K(100)]]],
          {"xs": [-20, 4], "x": -3}, {"placement": {"x": "param", "xs": "param"}, "force_env": ["x"]}),
+        # a target name bound by two clauses (the throw-away name of tuple unpacking), several other loop variables
+        ("det-repeated-target-names",
+         call("all", ["comp", "gen", ["cmp", N("v"), [[">", K(0)]]], None,
+                      [[["e", "w"], True, N("xss"), []], [["e", "v"], True, N("w"), []]]]),
+         {"xss": [{"t": [1, [{"t": [5, 2]}, {"t": [6, -1]}]]}]}, {"placement": {"xss": "param"}}),
         # speculative evaluation inside a comprehension (the documented limitation, D12b)
         ("spec-elt", ["bool", "and", [call("all", gen_v(["cmp", ["bin", "//", K(10), N("n")], [[">", N("v")]]], N("xs"))), N("flag")]],
          {"xs": [], "n": 0, "flag": False}, {}),
